@@ -71,6 +71,11 @@ def run(e: Engine, rep: Report):
     c09.g1(e, rep, 'R5.4')
     r55(e, rep)
     r56(e, rep)
+    rep.rule('R5.7', 'segmentation independence: the end-of-data write and '
+             'the dot removal are guarded by the finished line, the cursor '
+             'and EOD only - not by reader state that is set from the '
+             'fragment being added')
+    r57(e, rep)
     rep.floor('R5.1', 4, 'sentinel tests and rewrite sites')
     rep.floor('R5.3', 5, 'hand-over obligations')
 
@@ -104,9 +109,27 @@ def line_terminator(pattern: bytes, flags: int):
     from re import _parser as sp
     from re import _constants as sc
     items = list(sp.parse(pattern, flags))
+
+    def flat(its):
+        # capturing groups do not change what is matched
+        out = []
+        for it in its:
+            if it[0] == sc.SUBPATTERN:
+                out += flat(list(it[1][3]))
+            else:
+                out.append(it)
+        return out
+    items = flat(items)
     lits = []
     while items and items[-1][0] == sc.LITERAL:
         lits.insert(0, items.pop()[1])
+    # an optional CR in front of the final LF (`\r?\n`) leaves the line end
+    # where it was: at every LF (the CR, when there, is the last byte of
+    # what the body repeat would have matched anyway)
+    if lits == [10] and items and items[-1][0] == sc.MAX_REPEAT and \
+            items[-1][1][0] == 0 and items[-1][1][1] == 1 and \
+            list(items[-1][1][2]) == [(sc.LITERAL, 13)]:
+        items.pop()
     if not lits or len(items) != 1:
         return None
     op, av = items[0]
@@ -121,6 +144,11 @@ def line_terminator(pattern: bytes, flags: int):
     else:
         return None
     return bytes(lits), contains, op == sc.MIN_REPEAT
+
+
+# bytes methods that cut a buffer into lines, and the boundaries they use
+# (Python language reference: bytes.splitlines splits on \n, \r and \r\n)
+LINE_SPLITTERS = {'splitlines': {b'\n', b'\r', b'\r\n'}}
 
 
 def r55(e: Engine, rep: Report):
@@ -159,6 +187,25 @@ def r55(e: Engine, rep: Report):
             rep.error('anchor vanished: DataSender.' + mname)
             continue
         rep.functions.add(m.qname)
+        # library calls that decide where lines begin bring their own set of
+        # line boundaries (table LINE_SPLITTERS): it has to be the reader's
+        for n in ast.walk(m.node):
+            if isinstance(n, ast.Call) and isinstance(n.func, ast.Attribute) \
+                    and n.func.attr in LINE_SPLITTERS:
+                nlit += 1
+                rep.evaluations += 1
+                bounds = LINE_SPLITTERS[n.func.attr]
+                rep.check(bounds == {term}, 'R5.5', m.qname,
+                          'line boundaries of %s()' % n.func.attr,
+                          'the sender finds line starts with %s(), which '
+                          'begins a new line after each of %s, while the '
+                          'reader ends lines at %r only: a dot that follows '
+                          'one of the other boundaries is stuffed although '
+                          'the reader will not see it at the start of a '
+                          'line - the extra dot stays in the content'
+                          % (n.func.attr, sorted(bounds), term),
+                          loc=m.loc(n), reason='same boundary set as the '
+                          'reader')
         for n in ast.walk(m.node):
             if isinstance(n, ast.Constant) and isinstance(n.value, bytes) \
                     and (b'\n' in n.value or b'\r' in n.value):
@@ -318,3 +365,115 @@ def r56(e: Engine, rep: Report):
     if nw < 6:
         rep.error('anchor vanished: writes of DataReader.i/lines/EOD '
                   '(%d < 6)' % nw)
+
+
+# -------------------------------------------------------------------- R5.7
+def r57(e: Engine, rep: Report):
+    """What the reader decides about a line depends on the ASSEMBLED line
+    only, never on how the bytes happened to arrive.  The decisions are the
+    end-of-data write and the dot removal in the per-line handler; besides
+    the finished line, the cursor and EOD itself they may look at reader
+    state only if that state is computed from assembled lines too.  State
+    written from the fragment being added (`piece`, a match over it) differs
+    between two segmentations of the same byte stream."""
+    c = e.p.cls(READER)
+    core = {'EOD', 'lines', 'i'}
+    # attributes written from fragment-derived values, per writer
+    tainted_attrs = {}
+    for mname, m in sorted(c.methods.items()):
+        params = [p for p in m.params if p != 'self']
+        if mname in ('__init__',) or not params:
+            continue
+        # names derived from the fragment parameters of a feeding method
+        feeds = mname in ('add_lines', 'recv_piece', 'from_recv_buffer') or \
+            any(p in ('piece', 'data', 'chunk', 'buf') for p in params)
+        if not feeds:
+            continue
+        taint = set(params)
+        changed = True
+        while changed:
+            changed = False
+            for n in walk_own(m.node):
+                tg, src = [], None
+                if isinstance(n, ast.Assign):
+                    tg, src = n.targets, n.value
+                elif isinstance(n, ast.For):
+                    tg, src = [n.target], n.iter
+                elif isinstance(n, ast.AugAssign):
+                    tg, src = [n.target], n.value
+                if src is None:
+                    continue
+                if any(isinstance(x, ast.Name) and x.id in taint
+                       for x in ast.walk(src)):
+                    for t in tg:
+                        for x in ast.walk(t):
+                            if isinstance(x, ast.Name) and \
+                                    x.id not in taint:
+                                taint.add(x.id)
+                                changed = True
+        for n in walk_own(m.node):
+            if isinstance(n, (ast.Assign, ast.AugAssign)):
+                tg = n.targets if isinstance(n, ast.Assign) else [n.target]
+                for t in tg:
+                    if isinstance(t, ast.Attribute) and \
+                            isinstance(t.value, ast.Name) and \
+                            t.value.id == 'self' and t.attr not in core and \
+                            any(isinstance(x, ast.Name) and x.id in taint
+                                for x in ast.walk(n.value)):
+                        tainted_attrs.setdefault(t.attr, (m, n))
+    # the decision sites
+    nsites = 0
+    for mname, m in sorted(c.methods.items()):
+        if mname == '__init__':
+            continue
+        cx = Ctx(m, READER)
+        g = e.build(cx, raises=lambda b, n, r: set())
+        fx = e.facts(g)
+        for n in g.of_kind('stmt'):
+            a = n.ast
+            if not isinstance(a, ast.Assign):
+                continue
+            eod_w = any(isinstance(t, ast.Attribute) and t.attr == 'EOD' and
+                        isinstance(t.value, ast.Name) and
+                        t.value.id == 'self' for t in a.targets)
+            line_w = any(isinstance(t, ast.Subscript) and
+                         ast.unparse(t.value) == 'self.lines'
+                         for t in a.targets)
+            if not (eod_w or line_w):
+                continue
+            st = fx.at(n)
+            if st is None:
+                continue
+            # (the give-up mark in front of `raise MessageTooBig` is not a
+            # decision about a line)
+            if eod_w and not any(p and 'eod_pattern' in k for p, k in st):
+                continue
+            nsites += 1
+            rep.evaluations += 1
+            from ..facts import key_paths
+            used = set()
+            for p, k in st:
+                for kp in key_paths(k):
+                    if kp.startswith('self.'):
+                        used.add(kp.split('.')[1].split('#')[0])
+            bad = sorted(x for x in used if x in tainted_attrs)
+            w = tainted_attrs[bad[0]] if bad else None
+            rep.check(not bad, 'R5.7', m.qname,
+                      'decision `%s` rests on the assembled line only'
+                      % n.text(40),
+                      'the reader decides this under a condition on '
+                      'self.%s, which %s sets from the fragment being added '
+                      '(`%s`): the same byte stream cut differently gives a '
+                      'different value - an end-of-data line is taken for '
+                      'data (or a data line for end-of-data) depending on '
+                      'where a read boundary fell' % (
+                          bad[0] if bad else '?',
+                          w[0].name if w else '?',
+                          ' '.join(ast.unparse(w[1]).split())[:60]
+                          if w else ''),
+                      loc=n.loc(), reason='guards mention the finished '
+                      'line, the cursor and EOD only (or state computed '
+                      'from assembled lines)')
+    if nsites < 2:
+        rep.error('anchor vanished: per-line decision sites of DataReader '
+                  '(%d < 2)' % nsites)
